@@ -37,12 +37,15 @@ CHECKS = {
              'FST.bloc return a cached answer untouched and otherwise store exactly what they computed under their own '
              'key (loc == CPython extent through b2c); FST.pars selects cache slot parsT/parsF/parsN by its sharing mode '
              'and answers only from that slot; FST.own_lines keys its memo by the RESOLVED docstr value; the byte-coordinate '
-             'accessors are c2b of loc. "No stale answer after any '
+             'accessors are c2b of loc; link maintenance: the FST constructor (child branch), _set_field (single field; list '
+             'field of any length with a loop invariant), _set_ast and the per-parent body of _make_fst_tree establish '
+             'a.f / f.a / parent / pfield exactly (indices included), disconnect the previous owner, replace shared '
+             'ctx/op singletons by unique instances and flush the node. "No stale answer after any '
              'edit" itself is bounded: after every successful edit of the sweep every query on every node must equal '
              'the answer on FST(root.src), with every cache populated before the edit (par()/unpar() included; two unpar '
              'defects found this way are fixed in /repo: F-C02-1, F-C02-2).',
-        note=TB + BND + ' Undecided remainder: flush-on-write at the ~60 position-writing sites, link maintenance, the '
-             'children worklist of _touchall.',
+        note=TB + BND + ' Undecided remainder: flush-on-write at the ~60 position-writing sites, the work lists of '
+             '_make_fst_tree/_unmake_fst_tree/_touchall(children) as a whole.',
         technique='contract-based deductive verification of cache/flush primitives (symbolic heap, loop invariant, z3) '
                   '+ bounded runtime contracts (query-by-query comparison with a fresh tree)',
         ref='DESIGN.md section 4 C02'),
